@@ -44,6 +44,7 @@ type Loaded struct {
 	ssaPkgs []*ssa.Package
 	// functions that were given back their pinned form before the rules run (identity.go)
 	Notes       []string
+	orderNotes  []string
 	identityErr error
 }
 
@@ -128,7 +129,11 @@ func load(repo, config, fixture string) (*Loaded, error) {
 		}
 	}
 	if fixture == "" {
-		l.Notes = l.restoreIdentities()
+		unrolled := l.unrollConstantRanges(l.modulePkgs())
+		if l.identityErr == nil {
+			l.Notes = l.restoreIdentities()
+		}
+		l.Notes = append(append(unrolled, l.orderNotes...), l.Notes...)
 		if l.identityErr != nil {
 			// the trees were touched: load again and judge the program as it is written
 			fmt.Fprintln(os.Stderr, "note:", l.identityErr)
